@@ -532,7 +532,11 @@ class PeerConnection:
 
     def demand_attention(self):
         """Signal parent node that data can be sent or read for this peer."""
-        os.write(self._interrupt_fileno, bytes.fromhex(self.ident))
+        try:
+            os.write(self._interrupt_fileno, bytes.fromhex(self.ident))
+        except BlockingIOError:
+            # the pipe is full of wake-ups that the node has yet to read
+            pass
 
     def remove_out_bytes(self, sent_bytes: int):
         """Remove a given amount of bytes from outgoing buffer."""
